@@ -367,7 +367,7 @@ def run(ctx):
                     np.abs(xa - cref).max() if xa.shape == cref.shape else np.inf, np.abs(xa - xb).max() if xa.shape == xb.shape else np.inf, tol), replay, True)
         except Exception as ex:
             ctx.violation('l2-raise', 'project_L2(f_physical=True) raised %s' % type(ex).__name__, dict(replay, error=str(ex)[:200]), True)
-    nh = 6 if quick else 40
+    nh = 8 if quick else 60
     import sys
     sys.stdout.flush(); sys.stderr.flush()
     _null = os.open(os.devnull, os.O_WRONLY); _o1, _o2 = os.dup(1), os.dup(2)
@@ -381,30 +381,83 @@ def run(ctx):
 
 
 def _hspace_part(ctx, rng, nh, bspline, approx, hierarchical, utils):
+    from pyiga import geometry, assemble, vform
+    EPSL = 2.0 ** -53
     for it in range(nh):
+        dim = int(rng.choice([1, 2]))
         p = int(rng.integers(1, 4))
-        kvs = tuple(bspline.make_knots(p, 0.0, 1.0, int(rng.integers(2, 4))) for _ in range(2))
+        nspans = int(rng.integers(2, 5))
         trunc = bool(rng.integers(0, 2))
-        hs = hierarchical.HSpace(kvs, truncate=trunc)
+        nlev = int(rng.choice([2, 3]))
+        k0 = int(rng.integers(1, nspans + 1)); k1 = int(rng.integers(1, 2 * k0 + 1))
+        # refine the cells of level lv lying in [0, cut)^dim; cuts are cell boundaries of their level, nested
+        cuts = [(k0 + 0.25) / nspans, (k1 + 0.25) / (2 * nspans)][:nlev - 1]
+        name = 'THB' if trunc else 'HB'
+        replay0 = {'dim': dim, 'p': p, 'spans': nspans, 'truncate': trunc,
+                   'refine_region': [[lv, 'all(x < %g)' % t] for lv, t in enumerate(cuts)]}
         try:
-            for lv in range(int(rng.integers(1, 3))):
-                cells = hs.active_cells(lv) if hasattr(hs, 'active_cells') else None
-                act = sorted(hs.mesh.active[lv]) if cells is None else sorted(cells)
-                pick = [act[i] for i in rng.permutation(len(act))[:max(1, len(act) // 3)]]
-                hs.refine({lv: pick})
-            cf = rng.integers(-3, 4, size=(p + 1, p + 1)).astype(float)
-            fun = lambda x, y: sum(cf[i, j] * x ** i * y ** j for i in range(p + 1) for j in range(p + 1))
-            ctx.case(('hspace', p, trunc, hs.numdofs, cf.tobytes())); ctx.count('stream=l2-hspace(%s)' % ('THB' if trunc else 'HB'))
+            kvs = tuple(bspline.make_knots(p, 0.0, 1.0, nspans) for _ in range(dim))
+            hs = hierarchical.HSpace(kvs, truncate=trunc)
+            for lv, t in enumerate(cuts):
+                hs.refine_region(lv, lambda *X, t=t: all(x < t for x in X))
+            N = hs.numdofs
+            ident = geometry.identity(hs.knotvectors(0))
+            M = assemble.assemble(vform.mass_vf(dim), hs, geo=ident).toarray()
+            kap = float(np.linalg.cond(M))
+            # (1) a polynomial of the coarse space (smooth on every cell of every level)
+            cf = rng.integers(-3, 4, size=(p + 1,) * dim).astype(float)
+            if dim == 1:
+                fun = lambda x: sum(cf[i] * x ** i for i in range(p + 1))
+            else:
+                fun = lambda x, y: sum(cf[i, j] * x ** i * y ** j for i in range(p + 1) for j in range(p + 1))
+            ctx.case(('hspace-poly', dim, p, nspans, trunc, tuple(cuts), cf.tobytes())); ctx.count('stream=l2-hspace(%s)' % name)
             u = approx.project_L2(hs, fun)
             X = np.linspace(0.0, 1.0, 9)
-            got = hierarchical.HSplineFunc(hs, u).grid_eval((X, X))
-            want = utils.grid_eval(fun, (X, X))
-            if np.abs(got - want).max() > 1e-9 * max(1.0, np.abs(want).max()) * hs.numdofs:
-                ctx.violation('l2-hspace-reproduce', 'project_L2 into an %s space does not reproduce a polynomial of the space: max error %g' % (
-                    'THB' if trunc else 'HB', np.abs(got - want).max()), {'p': p, 'truncate': trunc, 'numdofs': hs.numdofs, 'poly': cf.tolist()}, True)
+            grid = (X,) * dim
+            got = hierarchical.HSplineFunc(hs, u).grid_eval(grid)
+            want = utils.grid_eval(fun, grid)
+            tolp = 1024.0 * N * EPSL * kap * max(1.0, float(np.abs(want).max()))
+            if np.abs(got - want).max() > tolp:
+                ctx.violation('l2-hspace-reproduce', 'project_L2 into an %s space does not reproduce a polynomial of the space: max error %g > %g' % (
+                    name, np.abs(got - want).max(), tolp), dict(replay0, poly=cf.tolist()), True)
+            # (2) an arbitrary element of the space: random dyadic coefficients on ALL levels
+            c = rng.integers(-8, 9, size=N) / 8.0
+            f = hierarchical.HSplineFunc(hs, c)
+            ctx.case(('hspace-elem', dim, p, nspans, trunc, tuple(cuts), c.tobytes())); ctx.count('stream=l2-hspace-all-levels(%s)' % name)
+            u = np.asarray(approx.project_L2(hs, f))
+            tol = 1024.0 * N * EPSL * kap * max(1.0, float(np.abs(c).max()))
+            if u.shape != c.shape or np.abs(u - c).max() > tol:
+                na = [len(ii) for ii in hs.active_indices()]
+                ctx.violation('l2-hspace-fine-components',
+                              'project_L2 into an %s space does not reproduce an element of the space with fine-level components '
+                              '(f = HSplineFunc(hs, c), identity geometry): max |u - c| = %g, bound %g' % (name, np.abs(u - c).max() if u.shape == c.shape else np.inf, tol),
+                              dict(replay0, dofs_per_level=na, coeffs=c.tolist(), result=u.tolist()), True)
+            # (3) non-identity (affine) geometry, callable data in parameter vs physical coordinates
+            if dim == 2:
+                aff = geometry.unit_square().scale((2.0, 0.5)).translate((1.0, -3.0))      # x = 2*xi_x + 1, y = xi_y/2 - 3
+                pull = fun
+                fphys = lambda x, y, fun=fun: fun((x - 1.0) / 2.0, (y + 3.0) * 2.0)
+            else:
+                aff = geometry.line_segment(1.0, 3.0)                                         # x = 2*xi + 1
+                pull = fun
+                fphys = lambda x, fun=fun: fun((x - 1.0) / 2.0)
+            ctx.case(('hspace-phys', dim, p, nspans, trunc, tuple(cuts), cf.tobytes())); ctx.count('stream=l2-hspace-geometry(%s)' % name)
+            Mg = assemble.assemble(vform.mass_vf(dim), hs, geo=aff).toarray()
+            kg = float(np.linalg.cond(Mg))
+            ua = np.asarray(approx.project_L2(hs, pull, geo=aff))
+            ub = np.asarray(approx.project_L2(hs, fphys, f_physical=True, geo=aff))
+            ga = hierarchical.HSplineFunc(hs, ua).grid_eval(grid)
+            gb = hierarchical.HSplineFunc(hs, ub).grid_eval(grid)
+            tolg = 4096.0 * N * EPSL * kg * max(1.0, float(np.abs(want).max()))
+            if np.abs(ga - want).max() > tolg:
+                ctx.violation('l2-hspace-geometry', 'project_L2(hs, f, geo=affine) does not reproduce a polynomial of the %s space: error %g > %g' % (
+                    name, np.abs(ga - want).max(), tolg), dict(replay0, poly=cf.tolist(), geo='affine'), True)
+            if np.abs(gb - want).max() > tolg or np.abs(ua - ub).max() > tolg:
+                ctx.violation('l2-hspace-physical', 'project_L2(hs, f_phys, f_physical=True, geo=affine) differs from the projection of the pull-back in the %s space: '
+                              '|phys - exact| = %g, |phys - param| = %g, bound %g' % (name, np.abs(gb - want).max(), np.abs(ua - ub).max(), tolg),
+                              dict(replay0, poly=cf.tolist(), geo='affine: x=2*xi+1 (, y=eta/2-3)'), True)
         except Exception as ex:
-            ctx.violation('l2-hspace-raise', 'project_L2(HSpace) raised %s: %s' % (type(ex).__name__, str(ex)[:150]), {'p': p, 'truncate': trunc}, True)
-
+            ctx.violation('l2-hspace-raise', 'project_L2(HSpace) raised %s: %s' % (type(ex).__name__, str(ex)[:150]), replay0, True)
 
 
 def _model_diff(ctx, req, chk, meta):
